@@ -161,7 +161,7 @@ func (vm *VM) convertPanic(msg any) error {
 			}
 		}
 	case OpAppendSlice:
-		if err, ok := msg.(string); ok && err == "reflect.Append: slice overflow" {
+		if err, ok := msg.(string); ok && (err == "reflect.Append: slice overflow" || err == "reflect.Value.Grow: slice overflow") {
 			return vm.newPanic(runtimeError("append: out of memory"))
 		}
 	case OpCallIndirect:
@@ -225,16 +225,28 @@ func (vm *VM) convertPanic(msg any) error {
 			}
 		}
 	case OpMakeChan, -OpMakeChan:
-		if err, ok := msg.(string); ok && err == "reflect.MakeChan: negative buffer size" {
-			return vm.newPanic(runtimeError("makechan: size out of range"))
+		switch err := msg.(type) {
+		case string:
+			if err == "reflect.MakeChan: negative buffer size" {
+				return vm.newPanic(runtimeError("makechan: size out of range"))
+			}
+		case runtime.Error:
+			if s := err.Error(); s == "makechan: size out of range" {
+				return vm.newPanic(runtimeError(s))
+			}
 		}
 	case OpMakeSlice:
-		if err, ok := msg.(string); ok {
+		switch err := msg.(type) {
+		case string:
 			switch err {
 			case "reflect.MakeSlice: negative len":
 				return vm.newPanic(runtimeError("runtime error: makeslice: len out of range"))
 			case "reflect.MakeSlice: negative cap", "reflect.MakeSlice: len > cap":
 				return vm.newPanic(runtimeError("runtime error: makeslice: cap out of range"))
+			}
+		case runtime.Error:
+			if err.Error() == "runtime: allocation size out of range" {
+				return vm.newPanic(runtimeError("runtime error: makeslice: len out of range"))
 			}
 		}
 	case OpPanic:
